@@ -52,16 +52,21 @@ func (c *Distinct) Add(retraction bool, value octosql.Value) bool {
 		item = &distinctKey{count: 0}
 		c.items.Put(value, item)
 	}
+	// The count may be negative for a while: a retraction can arrive before the addition it takes back.
+	// The wrapped aggregate sees the value exactly while the count is positive.
+	wasPresent := item.count > 0
 	if !retraction {
 		item.count++
 	} else {
 		item.count--
 	}
-	if item.count == 1 && !retraction {
+	if isPresent := item.count > 0; isPresent && !wasPresent {
 		c.wrapped.Add(false, value)
-	} else if item.count == 0 {
-		c.items.Remove(value)
+	} else if !isPresent && wasPresent {
 		c.wrapped.Add(true, value)
+	}
+	if item.count == 0 {
+		c.items.Remove(value)
 	}
 	return c.items.Size() == 0
 }
